@@ -348,4 +348,12 @@ theorem maintenance_not_before (k : Key) (h : Hash) (p : Params) (start now : In
   simp only at this
   rw [this, if_neg (by omega)]
 
+/-- recorded finding F24: a consumer that is stopped right after its take transaction (before it has queued the message
+    locally) leaves the message in `processing` only — no list holds it and the client has forgotten it; by
+    `maintenance_not_before` it is not returned before its execution timeout has elapsed -/
+theorem redis_cancelled_fetch_witness :
+    let r0 : R := { normal := [(5, "t:a")], hashes := [((5, "t:a"), { payload := some "{}", params := some {} })] }
+    let r1 := takeTx r0 .n 5 "t:a" 0
+    r1.normal = [] ∧ r1.delayed = [] ∧ r1.dead = [] ∧ r1.processing = [("t:a", 0)] := by decide
+
 end Repid.RedisProofs
